@@ -272,6 +272,115 @@ def mut_store_after_alias(src):
     )
 
 
+# ---- twin audit (same-typed section variables / glue functions written for each other, swapped argument order)
+def mut_bwd_init_universal(src):
+    """(t1) the backward initialisation of the non-leaf blocks uses the universal set"""
+    return replace_once(
+        src,
+        "                else:\n                    global_liveout[key][b] = self._null_set(key)\n",
+        "                else:\n                    global_liveout[key][b] = self._universal_set(key)\n",
+    )
+
+
+def mut_fwd_step_union(src):
+    """(t2) the forward step unites RCHin with the block context"""
+    return replace_once(
+        src,
+        "            new_reachout = self._intersection(\n                key,\n                self._calculate_reachin(key, block, global_reachout[key]),\n",
+        "            new_reachout = self._union(\n                key,\n                self._calculate_reachin(key, block, global_reachout[key]),\n",
+    )
+
+
+def mut_bwd_step_union(src):
+    """(t3) the backward step unites LIVEin with the block context"""
+    return replace_once(
+        src,
+        "            new_liveout = self._intersection(\n                key,\n                self._calculate_livein(key, block, global_liveout[key]),\n",
+        "            new_liveout = self._union(\n                key,\n                self._calculate_livein(key, block, global_liveout[key]),\n",
+    )
+
+
+def mut_bwd_enqueue_successors(src):
+    """(t4) the backward pass enqueues the successors (forward / backward twin)"""
+    return replace_once(
+        src,
+        "                for bi in prev_blocks_global(self._function, b) + callsub_block:\n",
+        "                for bi in next_blocks_global(self._function, b) + callsub_block:\n",
+    )
+
+
+def mut_reachin_for_backward(src):
+    """(t5) the backward step calls _calculate_reachin (forward / backward twin)"""
+    return replace_once(
+        src,
+        "                self._calculate_livein(key, block, global_liveout[key]),\n",
+        "                self._calculate_reachin(key, block, global_liveout[key]),\n",
+    )
+
+
+def mut_fwd_stale_compare(src):
+    """(t6) the forward step compares with the block context (twin dictionaries of the same type)"""
+    return replace_once(
+        src,
+        "            if new_reachout != global_reachout[key][block]:\n",
+        "            if new_reachout != self._block_contexts[key][block]:\n",
+    )
+
+
+def mut_bwd_leaf_test_swapped(src):
+    """(t7) the backward initialisation: the two branches of the leaf test swapped"""
+    return replace_once(
+        src,
+        "                if leaf_block_global(b):  # leaf block\n                    global_liveout[key][b] = self._block_contexts[key][b]\n                else:\n                    global_liveout[key][b] = self._null_set(key)\n",
+        "                if leaf_block_global(b):  # leaf block\n                    global_liveout[key][b] = self._null_set(key)\n                else:\n                    global_liveout[key][b] = self._block_contexts[key][b]\n",
+    )
+
+
+def mut_fwd_step_args(src):
+    """(a1) the forward step: the two set arguments of _intersection swapped"""
+    return replace_once(
+        src,
+        "                self._calculate_reachin(key, block, global_reachout[key]),\n                self._block_contexts[key][block],\n",
+        "                self._block_contexts[key][block],\n                self._calculate_reachin(key, block, global_reachout[key]),\n",
+    )
+
+
+def mut_bwd_step_args(src):
+    """(a2) the backward step: the two set arguments of _intersection swapped"""
+    return replace_once(
+        src,
+        "                self._calculate_livein(key, block, global_liveout[key]),\n                self._block_contexts[key][block],\n",
+        "                self._block_contexts[key][block],\n                self._calculate_livein(key, block, global_liveout[key]),\n",
+    )
+
+
+def mut_fwd_neq_args(src):
+    """(a3) the forward step: operands of != swapped (== of an arbitrary domain need not be symmetric)"""
+    return replace_once(
+        src,
+        "            if new_reachout != global_reachout[key][block]:\n",
+        "            if global_reachout[key][block] != new_reachout:\n",
+    )
+
+
+def mut_fwd_concat_order(src):
+    """(a4) the forward pass enqueues the return point before the successors"""
+    return replace_once(
+        src,
+        "                for bi in next_blocks_global(self._function, b) + return_point_block:\n",
+        "                for bi in return_point_block + next_blocks_global(self._function, b):\n",
+    )
+
+
+def mut_bwd_concat_order(src):
+    """(a5) the backward pass enqueues the callsub block before the predecessors"""
+    return replace_once(
+        src,
+        "                for bi in prev_blocks_global(self._function, b) + callsub_block:\n",
+        "                for bi in callsub_block + prev_blocks_global(self._function, b):\n",
+    )
+
+
 MUTATIONS = [
     ("(i) `updated` overwritten per key (regression)", GEN, mut_flag_overwritten),
     ("(ii) forward: return point not enqueued", GEN, mut_no_return_point),
@@ -300,6 +409,18 @@ MUTATIONS = [
     ("(s10) inner dictionary not created by {}", GEN, mut_alias_inner),
     ("(s11) BasicBlock defines __eq__", BB, mut_block_eq),
     ("(s12) statement after the closing loop", GEN, mut_store_after_alias),
+    ("(t1) TWIN backward init: universal set for null set", GEN, mut_bwd_init_universal),
+    ("(t2) TWIN forward step: union for intersection", GEN, mut_fwd_step_union),
+    ("(t3) TWIN backward step: union for intersection", GEN, mut_bwd_step_union),
+    ("(t4) TWIN backward enqueues the successors", GEN, mut_bwd_enqueue_successors),
+    ("(t5) TWIN backward step calls _calculate_reachin", GEN, mut_reachin_for_backward),
+    ("(t6) TWIN forward compares with the block context", GEN, mut_fwd_stale_compare),
+    ("(t7) TWIN backward init: branches of the leaf test swapped", GEN, mut_bwd_leaf_test_swapped),
+    ("(a1) ARGS forward step: _intersection(key, y, x)", GEN, mut_fwd_step_args),
+    ("(a2) ARGS backward step: _intersection(key, y, x)", GEN, mut_bwd_step_args),
+    ("(a3) ARGS forward step: operands of != swapped", GEN, mut_fwd_neq_args),
+    ("(a4) ARGS forward: return point + successors", GEN, mut_fwd_concat_order),
+    ("(a5) ARGS backward: callsub block + predecessors", GEN, mut_bwd_concat_order),
 ]
 REQUIRED = 5  # the first five rows are the mutations required by the task
 
